@@ -451,7 +451,10 @@ impl<'a> Engine<'a> {
                     }
                     if F::TRACKED {
                         if k.tag() != e.tag || k.id() != e.kid {
-                            self.h.viol("C12", "stored-key-identity", format!("class {}: stored key is tag {} id {:#x}, model expects tag {} id {:#x}", class, k.tag(), k.id(), e.tag, e.kid));
+                            let msg = format!("class {}: stored key is tag {} id {:#x}, model expects tag {} id {:#x}", class, k.tag(), k.id(), e.tag, e.kid);
+                            self.h.viol("C12", "stored-key-identity", msg.clone());
+                            // iteration hands out key objects too: the dictionary C01 describes keeps the key C12 says it keeps
+                            self.h.viol("C01", "yielded-key-object", msg);
                         }
                         if v.id() != e.vid && v.payload() == e.payload {
                             self.h.viol("C02", "value-object-identity", format!("class {}: stored value object {:#x}, model expects {:#x}", class, v.id(), e.vid));
